@@ -147,6 +147,10 @@ pub fn install_panic_hook() {
         } else {
             "?".into()
         };
+        if msg.contains("unsafe precondition") {
+            // the process is about to abort: leave the reason where the driver can classify it
+            eprintln!("non-unwinding panic at {loc}: {msg}");
+        }
         LAST_PANIC.with(|p| *p.borrow_mut() = Some((loc, msg)));
     }));
 }
